@@ -72,7 +72,7 @@ def oracle(ops, impl, side):
                 bad.append((i, "loading a %d-byte %s file allocated %d bytes (limit %d)" % (n, kind, a, impl_limit(n)),
                             "C04-unbounded-compressed-size-alloc" if kind in ("csize", "forged-csize") else
                             "C04-unbounded-decoded-length-alloc" if kind == "forged-dlen" else None))
-            if rep.startswith("load idx "):
+            if rep.startswith("load idx ") and kind != "payload":   # CRC-valid crafted payloads are their own content
                 d = rep.split(" ")[2]
                 if d not in legit.get(f[2], set()):
                     bad.append((i, "a %s-damaged file loaded without error to state %s, which no prefix of the written entries has" % (kind, d),
